@@ -360,7 +360,8 @@ SOUP = ['<a', '<b', ' ', ' ', '>', '>', '/>', '</a', '</b', 'x="1"', "y='2'", 'z
 
 ATTR_SOUP = ['x="1"', "y='2'", 'z=3', 'w', 'w="', "w='", 'w=', '="1"', '"', "'", 'a"b"', 'x="1"y="2"', 'x = "1"', 'x=\n"1"', '\u0663x="1"',
              'x="a>b"', "x='a<b'", 'x=a"b', '/', '=', 'x==1', 'x="1""', 'x=\'1\'\'', 'x="', 'é="1"', 'x:y="1"' if False else 'xml:lang="e"', '&amp;', 'x=&amp;',
-             'x="&"', '<', 'x=<', '-x="1"', '.y', '_z', '@c="1"', ':v="1"', 'a.b=c']
+             'x="&"', '<', 'x=<', '-x="1"', '.y', '_z', '@c="1"', ':v="1"', 'a.b=c',
+             'c%', 'w=50%', 'x="5%"', '"5%"', '%s', 'b==50%', 'x=a"5%s"', "w='50%", '%(a)s="1"']
 
 
 def tag_soup(rng):
